@@ -787,79 +787,138 @@ def c07_cases():
 
 
 def c07_doc_numeric(script, rec):
-    """The documented conversion rules replayed over the numeric scalar settings of the root group (add . NAME T, set K
-    IDX V, get K IDX, option 1 B), whatever the shape of the script: independent of the model, used on shrunk scripts."""
+    """The documented conversion rules replayed over the numeric scalar settings of the root group and over the elements
+    of arrays / lists that are members of the root (add . NAME T, set K IDX V, get K IDX, eset K AGG I V, eget K AGG I,
+    option 1 B), whatever the shape of the script: independent of the model, used on shrunk scripts."""
     import struct
     bad = []
     al = align(script, rec["impl"])
     auto = 0
-    vals = []          # per root member: [kind, value] for numeric scalars, None otherwise
+    vals = []          # per root member: [kind, value] for numeric scalars, {"agg": type, "el": [[kind, value], ...]}, None otherwise
+
     def fbits(x):
         return "f%016x" % struct.unpack("<Q", struct.pack("<d", x))[0]
+
     def fval(tok):
         return struct.unpack("<d", struct.pack("<Q", int(tok[1:], 16)))[0]
-    for op, out in al:
-        f = op.split(" ")
-        if not out:
-            break
-        r = out[0][2:]
-        if f[0] in ("init", "dump", "write"):
-            continue
-        if f[0] == "option" and len(f) == 3:
-            if f[1] == "1":
-                auto = int(f[2])
-            continue
-        if f[0] == "add" and len(f) == 4 and f[1] == ".":
-            if r.startswith("n"):
-                t = int(f[3])
-                vals.append({2: ["i", 0], 3: ["l", 0], 4: ["f", 0.0]}.get(t))
-            continue
-        if f[0] in ("set", "get") and len(f) >= 3 and f[1] in "ilf" and f[2].isdigit() and int(f[2]) < len(vals) and vals[int(f[2])]:
-            cur = vals[int(f[2])]
-            st, sv = cur
-            k = f[1]
-            if f[0] == "set" and len(f) == 4:
-                v = fval(f[3]) if k == "f" else int(f[3])
-                if k == "f" and v != v:
-                    break
-                if k == st:
-                    ok, nv = True, v
-                elif st == "l" and k == "i":
-                    ok, nv = True, v
-                elif st == "i" and k == "l":
-                    ok, nv = (-2**31 <= v <= 2**31 - 1), v
-                elif st == "f":
-                    ok, nv = bool(auto), float(v)
-                else:       # float into an integer setting
-                    lo, hi = (-2**31, 2**31 - 1) if st == "i" else (-2**63 + 2048, 2**63 - 2048)
-                    if auto and not (lo - 1 < v < hi + 1):
-                        break                      # outside the cast's domain: nothing documented
-                    ok, nv = bool(auto), int(v) if auto else None
-                if (r == "i1") != ok:
-                    bad.append("'%s' on a stored %s (auto-convert %d) returned %s; documented: %s" % (op, st, auto, r, "success" if ok else "failure"))
-                    break
-                if ok:
-                    cur[1] = nv
+
+    class Outside(Exception):
+        pass
+
+    def do_set(cur, k, v):
+        """documented outcome of storing v of kind k into the numeric scalar cur; updates cur; returns success"""
+        st = cur[0]
+        if k == "f" and v != v:
+            raise Outside()
+        if k == st:
+            ok, nv = True, v
+        elif st == "l" and k == "i":
+            ok, nv = True, v
+        elif st == "i" and k == "l":
+            ok, nv = (-2**31 <= v <= 2**31 - 1), v
+        elif st == "f":
+            ok, nv = bool(auto), float(v)
+        else:       # float into an integer setting
+            lo, hi = (-2**31, 2**31 - 1) if st == "i" else (-2**63 + 2048, 2**63 - 2048)
+            if auto and not (lo - 1 < v < hi + 1):
+                raise Outside()                    # outside the cast's domain: nothing documented
+            ok, nv = bool(auto), int(v) if auto else None
+        if ok:
+            cur[1] = nv
+        return ok
+
+    def do_get(cur, k):
+        st, sv = cur
+        if k == st:
+            return fbits(sv) if k == "f" else "i%d" % sv
+        if k == "l" and st == "i":
+            return "i%d" % sv
+        if k == "i" and st == "l":
+            return "i%d" % (sv if -2**31 <= sv <= 2**31 - 1 else 0)
+        if k == "f":
+            return fbits(float(sv)) if auto else fbits(0.0)
+        lo, hi = (-2**31, 2**31 - 1) if k == "i" else (-2**63 + 2048, 2**63 - 2048)
+        if auto and not (lo - 1 < sv < hi + 1):
+            raise Outside()
+        return "i%d" % (int(sv) if auto else 0)
+
+    def parse(k, tok):
+        return fval(tok) if k == "f" else int(tok)
+
+    try:
+        for op, out in al:
+            f = op.split(" ")
+            if not out:
+                break
+            r = out[0][2:]
+            if f[0] in ("init", "dump", "write"):
                 continue
-            if f[0] == "get" and len(f) == 3:
-                if k == st:
-                    want = fbits(sv) if k == "f" else "i%d" % sv
-                elif k == "l" and st == "i":
-                    want = "i%d" % sv
-                elif k == "i" and st == "l":
-                    want = "i%d" % (sv if -2**31 <= sv <= 2**31 - 1 else 0)
-                elif k == "f":
-                    want = fbits(float(sv)) if auto else fbits(0.0)
-                else:
-                    lo, hi = (-2**31, 2**31 - 1) if k == "i" else (-2**63 + 2048, 2**63 - 2048)
-                    if auto and not (lo - 1 < sv < hi + 1):
+            if f[0] == "option" and len(f) == 3:
+                if f[1] == "1":
+                    auto = int(f[2])
+                continue
+            if f[0] == "add" and len(f) == 4 and f[1] == ".":
+                if r.startswith("n") and r != "n-":
+                    t = int(f[3])
+                    vals.append({2: ["i", 0], 3: ["l", 0], 4: ["f", 0.0], 7: {"agg": 7, "el": []}, 8: {"agg": 8, "el": []}}.get(t))
+                continue
+            if f[0] in ("set", "get") and len(f) >= 3 and f[1] in "ilf" and f[2].isdigit() and int(f[2]) < len(vals) \
+                    and isinstance(vals[int(f[2])], list):
+                cur = vals[int(f[2])]
+                k = f[1]
+                if f[0] == "set" and len(f) == 4:
+                    st = cur[0]
+                    ok = do_set(cur, k, parse(k, f[3]))
+                    if (r == "i1") != ok:
+                        bad.append("'%s' on a stored %s (auto-convert %d) returned %s; documented: %s" % (op, st, auto, r, "success" if ok else "failure"))
                         break
-                    want = "i%d" % (int(sv) if auto else 0)
-                if r != want:
-                    bad.append("'%s': the setting holds %s %r (auto-convert %d), so the documented answer is %s; got %s" % (op, st, sv, auto, want, r))
+                    continue
+                if f[0] == "get" and len(f) == 3:
+                    want = do_get(cur, k)
+                    if r != want:
+                        bad.append("'%s': the setting holds %s %r (auto-convert %d), so the documented answer is %s; got %s" % (op, cur[0], cur[1], auto, want, r))
+                        break
+                    continue
+            if f[0] in ("eset", "eget") and len(f) >= 4 and f[1] in "ilf" and f[2].isdigit() and int(f[2]) < len(vals) \
+                    and isinstance(vals[int(f[2])], dict) and re.fullmatch(r"-?\d+", f[3]):
+                agg = vals[int(f[2])]
+                k, idx = f[1], int(f[3])
+                el = agg["el"]
+                if any(e is None for e in el):
                     break
-                continue
-        break              # anything else: stop interpreting
+                if f[0] == "eset" and len(f) == 5:
+                    v = parse(k, f[4])
+                    if idx < 0:
+                        # append: a list takes anything; an array only its own element type (no conversion on append)
+                        ok = agg["agg"] == 8 or not el or el[0][0] == k
+                        if k == "f" and v != v:
+                            break
+                        if ok:
+                            el.append([k, v])
+                        want = "n%s/%d" % (f[2], len(el) - 1) if ok else "n-"
+                    elif idx < len(el):
+                        # an existing element: the rules of a direct assignment to that element
+                        ok = do_set(el[idx], k, v)
+                        want = "n%s/%d" % (f[2], idx) if ok else "n-"
+                    else:
+                        want = "n-"
+                    if r != want:
+                        bad.append("'%s' (auto-convert %d, %s of %s): documented outcome %s, got %s" % (
+                            op, auto, "array" if agg["agg"] == 7 else "list", [e[0] for e in el][:6], want, r))
+                        break
+                    continue
+                if f[0] == "eget" and len(f) == 4:
+                    if 0 <= idx < len(el):
+                        want = do_get(el[idx], k)
+                    else:
+                        want = fbits(0.0) if k == "f" else "i0"
+                    if r != want:
+                        bad.append("'%s': documented answer %s, got %s" % (op, want, r))
+                        break
+                    continue
+            break              # anything else: stop interpreting
+    except Outside:
+        pass
     return bad
 
 
@@ -1060,6 +1119,21 @@ def c06_cases(rng, ntrees, per_tree):
         body.append("dump")
         stats["lookups"] += sum(1 for l in body if l.split(" ")[0] in ("look", "clook", "plook"))
         cases.append("\n".join(body) + "\n")
+    # typed lookups that cannot deliver: whatever the reason (missing, wrong type, a float that an int cannot hold with
+    # auto-conversion on), a lookup that reports failure leaves the caller's variable untouched; each lookup is the last
+    # call of its case for values outside the C cast's domain (the model answers 'unspec' there)
+    import struct
+    def fx(d):
+        return "x%016x" % struct.unpack(">Q", struct.pack(">d", d))[0]
+    for auto in (0, 1):
+        for d in (3.0e9, -5.0e10, 4294967296.0, 2147483648.0, -2147483649.0, 9.3e18, 1e19, -1e19, 1e300, float("inf"), float("nan"), 2.5):
+            for kind in "il":
+                for path, setup in ((b"big", ["add . %s 4" % hx(b"big"), "set f 0 %s" % fx(d)]),
+                                    (b"lst.[1]", ["add . %s 8" % hx(b"lst"), "eset i 0 -1 1", "eset f 0 -1 %s" % fx(d)]),
+                                    (b"g/deep", ["add . %s 1" % hx(b"g"), "add 0 %s 4" % hx(b"deep"), "set f 0/0 %s" % fx(d)])):
+                    body = ["init", "option 1 %d" % auto] + setup + ["dump", "plook %s %s" % (kind, hx(path))]
+                    cases.append("\n".join(body) + "\n")
+                    stats["typed"] += 1
     return cases, stats
 
 
@@ -1621,7 +1695,8 @@ def c18_oracle(script, rec):
             continue
         data = unhx(f[1]) or b""
         files = {unhx(x.split(" ")[2]): (unhx(x.split(" ")[3]) or b"") for x in ops if x.startswith("fs put ")}
-        want = speclex.tokens(data, files) if files else speclex.tokens(data)
+        nothing = any(x in ("incfn empty", "incfn null") for x in ops)
+        want = speclex.tokens(data, files or {}, nothing=True) if nothing else (speclex.tokens(data, files) if files else speclex.tokens(data))
         got = [l for l in ch if l.startswith(("K ", "R "))]
         if want and want[-1].startswith("INCLUDE"):
             # no file exists in these runs: the tokens before the directive, then an error located where the
@@ -1667,7 +1742,13 @@ def run_c18(ctx):
                       b"/* c */@include \"a.cfg\"\n", b"\n@include \"a.cfg\"@include \"a.cfg\"\n"]
         cases += ["init\n" + "\n".join(fsl) + "\n" + "".join("lex %s\n" % hx(t) for t in inc_texts[i:i + per])
                   for i in range(0, len(inc_texts), per)]
-        res.distribution["include_texts"] = len(inc_texts)
+        # an include function that expands a directive to no file at all (an empty list, or NULL without an error): the
+        # text after the directive is scanned as usual
+        none_texts = [b"a = 1;\n@include \"opt.cfg\"\nb = 2;\nc = \"s\";\n$\n", b"@include \"x\"\n@include \"y\"\nz = 0x1F;",
+                      b"@include \"x\" w = 1;\n", b"  @include\t\"p\\\\q\"\nv = [ 1, 2 ];\n@include \"last\""]
+        for fn in ("incfn empty", "incfn null"):
+            cases.append("init\n" + fn + "\n" + "".join("lex %s\n" % hx(t) for t in none_texts))
+        res.distribution["include_texts"] = len(inc_texts) + 2 * len(none_texts)
         res.distribution["inputs"] = len(ins)
         res.distribution["bytes"] = sum(len(t) for t in ins)
     res.rule = ("token streams of libconfig_yylex (kind, value, line) on lexeme soups joined by every separator incl. none, "
@@ -1857,12 +1938,25 @@ def c08_oracle(script, rec):
                 lit, where = txt[6:-3], 1
             elif txt.startswith(b"c = ( ") and txt.endswith(b" );"):
                 lit, where = txt[6:-3], 1
+            elif txt.startswith(b"d = [ ") and txt.endswith(b" ];") and b", " in txt:
+                lit, where = txt[6:-3].split(b", ", 1)[1], 2
             cur = (lit, out[0] if out else None, where)
         elif op == "dump" and cur and cur[0] is not None:
             lit, r, where = cur
             exp = c08_expect(lit)
             root, _, err, _ = parse_dump(out)
             if exp == "skip":
+                continue
+            if where == 2:
+                # second element: whatever the first element is, what is stored for this literal is its exact value
+                if r == "R i1" and root and root.kids and len(root.kids[0].kids) > 1:
+                    k = root.kids[0].kids[1]
+                    if exp is None:
+                        bad.append("literal %r cannot be represented but was accepted as an array element (stored %s)" % (lit, k.val))
+                    elif (k.ty, k.val, k.fmt) != exp:
+                        bad.append("literal %r accepted as an array element but stored as type %d value %s format %d; its exact "
+                                   "value is type %d value %s format %d" % ((lit, k.ty, k.val, k.fmt) + exp))
+                cur = None
                 continue
             if exp is None:
                 if r == "R i1":
@@ -1896,6 +1990,16 @@ def run_c08(ctx):
                          "reads %s" % hx(b"b = [ " + l + b" ];"), "dump",
                          "reads %s" % hx(b"c = ( " + l + b" );"), "dump"]
             cases.append("\n".join(body) + "\n")
+        # the same literals as second element of an array whose first element has another numeric type, with
+        # auto-conversion switched on before the read: stored exactly, or the text is rejected
+        sub = lits[::7]
+        for i in range(0, len(sub), per):
+            body = ["init", "option 1 1"]
+            for l in sub[i:i + per]:
+                for first in (b"1", b"1.5", b"7L"):
+                    body += ["reads %s" % hx(b"d = [ " + first + b", " + l + b" ];"), "dump"]
+            cases.append("\n".join(body) + "\n")
+        res.distribution["second_elements_under_autoconvert"] = 3 * len(sub)
         res.distribution["literals"] = len(lits)
         res.distribution["accepted_by_spec"] = sum(1 for l in lits if isinstance(c08_expect(l), tuple))
         res.distribution["rejected_by_spec"] = sum(1 for l in lits if c08_expect(l) is None)
@@ -3129,6 +3233,19 @@ def c02_cases(rng, maxlen, spellings, nrandom):
             for t in texts[i:i + per]:
                 body += ["reads %s" % hx(t), "dump"]
             cases.append("\n".join(body) + "\n")
+    # the grammar does not depend on the other options: arrays mixing numeric types are rejected with auto-conversion on
+    # too (the option is about get / set / lookup), and everything else reads the same
+    mixed = [b"a = [ 1, 2.5 ];", b"a = [ 1.5, 3 ];", b"a = [ 1, 2L ];", b"a = [ 2L, 1 ];", b"a = [ 0x1, 2.0 ];", b"a = [ 1.0,\n 2,\n 3 ];",
+             b"a = [ 1L, 2.5e3 ];", b"l = ( 1, 2.5, 3L );", b"a = [ 1, 2 ]; b = [ 1.5, 2.5 ]; c = [ 1L ];", b"g = { a = [ 1, 2,\n\n 3.0 ]; };",
+             b"a = [ true, 1 ];", b"a = [ 1, \"s\" ];"]
+    sel = mixed + texts[8::max(1, len(texts) // 60)]
+    for opts in (1, 1 | 128, 1 | 4 | 8 | 16 | 32):
+        for i in range(0, len(sel), per):
+            body = ["init", "options %d" % opts]
+            for t in sel[i:i + per]:
+                body += ["reads %s" % hx(t), "dump"]
+            cases.append("\n".join(body) + "\n")
+    stats["texts_under_other_options"] = 3 * len(sel)
     stats["texts"] = len(texts)
     return cases, stats
 
